@@ -139,6 +139,10 @@ func (in *Interp) intrinsic(caller *frame, name string, args []value, pos token.
 		}
 		in.addInput(in.argStr(args[0]), "lz", ts...)
 		return tTrue
+	case "NativeRetryUntil":
+		inp := in.addInput(in.argStr(args[0]), "until")
+		inp.N = in.concreteInt(args[1], "observed value")
+		return tTrue
 	case "AltBase64":
 		st := args[0].(*Str)
 		if st.Kind == sGhost && st.G.Ctor == "b64" {
@@ -288,9 +292,40 @@ func (in *Interp) checkAssert(c *Term, label string) {
 	in.assert(c)
 }
 
-// captureModel must be called right after a Sat answer, in the same solver scope.
+// captureModel must be called right after a Sat answer, in the same solver scope. Models are steered towards
+// ordinary keys and signatures (no leading zero byte) wherever the violation does not need one, so that the
+// native replay's search for a matching key / signature stays cheap.
 func (in *Interp) captureModel(v *Violation, extra []*Term) {
+	pushed := 0
+	for _, inp := range in.inputs {
+		if inp.Kind != "lz" || len(inp.Terms) == 0 || inp.Terms[0].Const {
+			continue
+		}
+		in.sol.Push()
+		in.sol.Send("(assert (not (= " + inp.Terms[0].S + " #x00)))")
+		if r, _ := in.sol.Check(); r == Sat {
+			pushed++
+			continue
+		}
+		in.sol.Pop()
+		// this one needs a leading zero byte: prefer exactly the minimum (second byte non-zero)
+		if len(inp.Terms) > 1 && !inp.Terms[1].Const {
+			in.sol.Push()
+			in.sol.Send("(assert (not (= " + inp.Terms[1].S + " #x00)))")
+			if r, _ := in.sol.Check(); r == Sat {
+				pushed++
+				continue
+			}
+			in.sol.Pop()
+		}
+	}
+	if r, _ := in.sol.Check(); r != Sat {
+		in.inconclusive = append(in.inconclusive, "model extraction failed: solver lost the model")
+	}
 	m, err := in.modelValues()
+	for i := 0; i < pushed; i++ {
+		in.sol.Pop()
+	}
 	if err != nil {
 		in.inconclusive = append(in.inconclusive, "model extraction failed: "+err.Error())
 		return
